@@ -2,6 +2,9 @@ import Ruint.Props.C01
 import Ruint.Props.C07
 import Ruint.Props.C08
 import Ruint.Lemmas.Cmp
+import Ruint.Lemmas.Mul
+import Ruint.Props.C05
+import Ruint.Props.C06
 import Ruint.Model.History
 
 /-! Closure of the canonical set under every modelled producer (`Model/History.lean`). Each case of
@@ -60,6 +63,16 @@ theorem tryBe_canon (bits : ℕ) (bs : List ℕ) (h : Bytes.AllByte bs) (l : Lis
   · obtain ⟨l', e', c, _⟩ := h1 hc
     rw [e] at e'; cases e'; exact c
   · rw [h2 hc] at e; cases e
+
+theorem smul_canon (bits : ℕ) (a b : List ℕ) (ha : Canon bits a) (hb : Canon bits b) :
+    Canon bits (Mul.saturatingMul bits a b) := by
+  obtain ⟨h1, _, _⟩ := Mul.overflowingMul_spec bits a b ha hb
+  unfold Mul.saturatingMul
+  generalize Mul.overflowingMul bits a b = r at *
+  obtain ⟨v, f⟩ := r
+  cases f
+  · exact h1
+  · exact (Add.max_canon bits).1
 
 /-- **every modelled producer maps canonical registers to a canonical value.** -/
 theorem eval_canon (bits : ℕ) (regs : Regs) (h : AllCanon bits regs) (op : Op) (hv : op.Valid)
@@ -154,6 +167,45 @@ theorem eval_canon (bits : ℕ) (regs : Regs) (h : AllCanon bits regs) (op : Op)
     simp only [eval, Canon.fromLimbs_canon bits _ (R a), Option.map_some, Option.some.injEq,
       Prod.mk.injEq] at e
     rw [← e.2]; exact R a
+  | wmul d' a b =>
+    simp only [eval, Option.some.injEq, Prod.mk.injEq] at e; rw [← e.2]
+    exact (Mul.wrappingMul_spec bits _ _ (R a) (R b)).1
+  | smul d' a b =>
+    simp only [eval, Option.some.injEq, Prod.mk.injEq] at e; rw [← e.2]
+    exact smul_canon bits _ _ (R a) (R b)
+  | wshl d' a s =>
+    simp only [eval, Option.some.injEq, Prod.mk.injEq] at e; rw [← e.2]
+    exact (C05.wrapping_shl_spec bits _ s (R a)).1
+  | wshr d' a s =>
+    simp only [eval, Option.some.injEq, Prod.mk.injEq] at e; rw [← e.2]
+    exact (C05.wrapping_shr_spec bits _ s (R a)).1
+  | rotl d' a s =>
+    simp only [eval, Option.some.injEq, Prod.mk.injEq] at e; rw [← e.2]
+    exact (C05.rotate_left_spec bits _ s (R a)).1
+  | rotr d' a s =>
+    simp only [eval, Option.some.injEq, Prod.mk.injEq] at e; rw [← e.2]
+    exact (C05.rotate_right_spec bits _ s (R a)).1
+  | ashr d' a s =>
+    simp only [eval, Option.some.injEq, Prod.mk.injEq] at e; rw [← e.2]
+    exact (C05.arithmetic_shr_spec bits _ s (R a)).1
+  | not d' a =>
+    simp only [eval, Option.some.injEq, Prod.mk.injEq] at e; rw [← e.2]
+    exact (C06.not_spec bits _ (R a)).1
+  | and d' a b =>
+    simp only [eval, Option.some.injEq, Prod.mk.injEq] at e; rw [← e.2]
+    exact (C06.bitand_spec bits _ _ (R a) (R b)).1
+  | or d' a b =>
+    simp only [eval, Option.some.injEq, Prod.mk.injEq] at e; rw [← e.2]
+    exact (C06.bitor_spec bits _ _ (R a) (R b)).1
+  | xor d' a b =>
+    simp only [eval, Option.some.injEq, Prod.mk.injEq] at e; rw [← e.2]
+    exact (C06.bitxor_spec bits _ _ (R a) (R b)).1
+  | setbit d' a i v' =>
+    simp only [eval, Option.some.injEq, Prod.mk.injEq] at e; rw [← e.2]
+    exact (C06.set_bit_spec bits _ i v' (R a)).1
+  | revbits d' a =>
+    simp only [eval, Option.some.injEq, Prod.mk.injEq] at e; rw [← e.2]
+    exact (C06.reverse_bits_spec bits _ (R a)).1
 
 theorem step_canon (bits : ℕ) (regs : Regs) (h : AllCanon bits regs) (op : Op) (hv : op.Valid) :
     AllCanon bits (step bits regs op) := by
